@@ -68,4 +68,14 @@ LEVEL = {
         note="Trusted: Lean kernel; axioms ⊆ {propext, Classical.choice, Quot.sound}; model tied by differential testing (1e-9 relative, bit-identical in "
              "practice); exact-arithmetic semantics; band assembly tested, not proved.",
     ),
+    "C07": dict(
+        text="Theorems over the excitation model: a pulse fires exactly when counter+1 exceeds the period and has height sqrt(period); from any counter in (0,1] — "
+             "which a start and every pulse leave — the next gap is floor(T0) or floor(T0)+1 and exactly T0 for integer T0, with the counter back in (0,1] "
+             "(so every gap of a constant-F0 stretch is floor/ceil T0 and the mean power is 1); the period glides linearly; period = rate/exp(clamped log-F0); "
+             "LCG deviates in [0,1]. The defect found (first gap T0-1 for an integer period) is repaired in /repo (fix: 98d6dc9). Partial: the ring-buffer law "
+             "h*pulses + (delta-h)*noise and the whiteness/variance of the fixed noise sequence are decided by running the implementation (three runs per case) "
+             "and the bit-identical model, not by a theorem.",
+        note="Trusted: Lean kernel; axioms ⊆ {propext, Classical.choice, Quot.sound}; model tied by differential testing (bit-identical); statistics of one fixed "
+             "pseudo-random sequence are test-level by nature.",
+    ),
 }
